@@ -90,7 +90,7 @@ func c18Template(r *R) string {
 	n := r.Range(2, 7)
 	dump := func(e string) string { return "\x01{{ " + e + "|json_encode }}\x02" }
 	for i := 0; i < n; i++ {
-		switch r.N(16) {
+		switch r.N(17) {
 		case 0, 1:
 			l, f := listAndFilter(r)
 			sb.WriteString("{{ " + l + "|" + f + "|json_encode }};")
@@ -110,7 +110,7 @@ func c18Template(r *R) string {
 			m, f := mapAndFilter(r)
 			sb.WriteString("{% set a = " + m + " %}" + dump("a") + "{% set b = a|" + f + " %}" + dump("a") + "\x03")
 		case 6:
-			v := pick(r, []string{"s1", "l1", "m1", "n1", "pp", "il"})
+			v := pick(r, []string{"s1", "l1", "m1", "n1", "pp", "il", "g1", "gl", "gm", "gn"})
 			sb.WriteString("{% set " + v + " = " + pick(r, []string{"'changed'", "[1, 2]", "l1|reverse", "m1|merge({'k1': 0})", "n1 + 1"}) + " %}{{ " + v + "|json_encode }};")
 		case 7:
 			v := pick(r, []string{"s1", "n1", "x", "m1", "l1"})
@@ -127,6 +127,9 @@ func c18Template(r *R) string {
 				l, f = listAndFilter(r)
 			}
 			sb.WriteString("{{ " + l + "|" + f + "|" + pick(r, c18SeqFilters) + "|json_encode }};")
+		case 15:
+			// an import alias that collides with a map the caller (or the engine) owns
+			sb.WriteString("{% import 'lib18' as " + pick(r, []string{"ui", "gcfg", "ui2"}) + " %}{{ " + pick(r, []string{"ui", "gcfg"}) + "|keys|length }};{% from 'lib18' import f as ff %}{{ ff(1) }};")
 		case 13:
 			// an element of the caller's list of maps flows through a filter chain that ends in a writer
 			sb.WriteString("{{ l2|" + pick(r, []string{"first", "last"}) + "|merge({'id': 99, 'extra': 'e'})|json_encode }};{% set row = l2|first %}{% set row2 = row|merge({'n': 'changed'}) %}{{ l2|json_encode }};")
@@ -140,6 +143,8 @@ func c18Template(r *R) string {
 	return sb.String()
 }
 
+const c18Lib = "{% macro f(x) %}f({{ x }}){% endmacro %}{% macro g(y) %}g{% endmacro %}"
+
 const c18Part = "[{{ l1|reverse|json_encode }}{% set l1 = [] %}{% set m1 = m1|merge({'p': 1}) %}{{ s1 }}{{ m1|keys|sort|json_encode }}]"
 
 func (propC18) Gen(seed uint64, ex map[string]bool) interface{} {
@@ -151,6 +156,7 @@ func (propC18) Gen(seed uint64, ex map[string]bool) interface{} {
 	ctx.M = append(ctx.M,
 		KV{"nums", &Val{T: "list", L: []*Val{i(5), i(3), i(9), i(1), i(7)}}},
 		KV{"si", &Val{T: "simap", M: []KV{{"one", i(1)}, {"two", i(2)}, {"three", i(3)}}}},
+		KV{"ui", &Val{T: "map", M: []KV{{"theme", s("dark")}}}}, // only ever used as an import alias and for |keys|length: a module map must not be printed (its macro objects print as addresses)
 		KV{"cfg", &Val{T: "map", M: []KV{
 			{"db", &Val{T: "anymap", M: []KV{{"host", s("h")}, {"port", i(5432)}, {"opts", &Val{T: "anymap", M: []KV{{"ssl", &Val{T: "bool", B: true}}}}}}}},
 			{"list", &Val{T: "list", L: []*Val{s("a"), s("b")}}}}}},
@@ -266,17 +272,19 @@ func (propC18) Run(scI interface{}) *Outcome {
 			pe := twig.New()
 			installGlobals(pe)
 			pe.RegisterString("part", sc.Part)
+			pe.RegisterString("lib18", c18Lib)
 			pe.RegisterString("t", src)
 			want[i] = observe(nil, func() (string, error) { return pe.Render("t", c18Build(sc.Ctx)) })
 		}
 	}()
 	e := twig.New()
 	globals := installGlobals(e) // engine-wide globals are caller-owned data too
-	globalsBefore := snapshot(globals)
+	globalsBefore := snapshot(globals) + snapshot(twig.VerifEngineGlobals(e))
 	if sc.Via == "debug" {
 		e.SetDebug(true)
 	}
 	e.RegisterString("part", sc.Part)
+	e.RegisterString("lib18", c18Lib)
 	parsed := make([]*twig.Template, len(sc.Templates))
 	for i, src := range sc.Templates {
 		e.RegisterString(fmt.Sprintf("t%d", i), src)
@@ -331,7 +339,7 @@ func (propC18) Run(scI interface{}) *Outcome {
 	o.Stats = w.Stat
 	o.SimNS = w.NowNS() - 1_700_000_000e9
 	o.Nontrivial = !sc.Concurrent || w.Switches() > 2
-	if after := snapshot(globals); after != globalsBefore {
+	if after := snapshot(globals) + snapshot(twig.VerifEngineGlobals(e)); after != globalsBefore {
 		return fail("caller-data-snapshot", "render modified the engine's global data", diffSnap(globalsBefore, after))
 	}
 	for i := range sc.Templates {
